@@ -1204,6 +1204,8 @@ def render_extract(ex, vac=False, strip_proof=False):
     degraded = []
     edits = []   # (start, end, replacement)
     toks = tokenize(body)
+    meta['n_loops'] = len(find_loops(toks))
+    meta['n_closures'] = len(find_closures(toks, include_async=True))
     if ex.closures:
         cl = find_closures(toks)
         headers = [norm(join(toks[b0:b1 + 1])) for (b0, b1) in cl]
@@ -1526,7 +1528,31 @@ def build_unit(tpl_path, out_path, with_vac=True):
     for m in extraction_log:
         for d in m.get('degraded', []):
             degraded.append('%s: %s' % (m.get('name'), d))
-    return {'path': out_path, 'regions': regions, 'labels': labels, 'extraction_log': extraction_log, 'text': full, 'degraded': degraded, 'missing_items': missing_items}
+    # soft degradation: the item now contains MORE loops or closures than when its annotations were written (vx/shapecounts.json): the
+    # new loop has no invariant / the new closure no contract, so a failed obligation is not evidence of a violation by itself
+    soft = []
+    unit_name = os.path.splitext(os.path.basename(tpl_path))[0]
+    try:
+        with open(os.path.join(VXDIR, 'shapecounts.json')) as f_:
+            base_counts = json.load(f_).get(unit_name, {})
+    except (OSError, ValueError):
+        base_counts = {}
+    shape = {}
+    seen_keys = {}
+    for m in extraction_log:
+        if 'n_loops' not in m:
+            continue
+        key0 = '%s :: %s' % (m.get('file'), m.get('path'))
+        seen_keys[key0] = seen_keys.get(key0, 0) + 1
+        key = key0 + (' #%d' % seen_keys[key0] if seen_keys[key0] > 1 else '')
+        shape[key] = [m['n_loops'], m['n_closures']]
+        b_ = base_counts.get(key)
+        if b_ is not None:
+            if m['n_loops'] > b_[0]:
+                soft.append('%s: %d loop(s) where the annotations were written for %d' % (m.get('name'), m['n_loops'], b_[0]))
+            if m['n_closures'] > b_[1]:
+                soft.append('%s: %d closure(s) where the annotations were written for %d' % (m.get('name'), m['n_closures'], b_[1]))
+    return {'soft_degraded': soft, 'shape': shape, 'path': out_path, 'regions': regions, 'labels': labels, 'extraction_log': extraction_log, 'text': full, 'degraded': degraded, 'missing_items': missing_items}
 
 
 VERIF_FAIL_PATTERNS = [
@@ -1767,6 +1793,8 @@ def run_unit(tpl, workdir, seed=None, known_labels=()):
     if r['status'] == 'ok' and not obs:
         r['status'] = 'undecided'
         r['reason'] = 'no obligations generated'
+    r['soft_degraded'] = gen.get('soft_degraded', [])
+    r['shape'] = gen.get('shape', {})
     if gen.get('missing_items'):
         r['missing_items'] = gen['missing_items']
         if r['status'] == 'ok':
@@ -1781,7 +1809,21 @@ if __name__ == '__main__':
     ap.add_argument('tpl')
     ap.add_argument('--out', default=os.path.join(VERIF, '.cache', 'vx-work'))
     ap.add_argument('--gen-only', action='store_true')
+    ap.add_argument('--write-shapecounts', action='store_true', help='tpl = directory of units: record loops/closures per extracted item (run on the tree the annotations were written for)')
     a = ap.parse_args()
+    if a.write_shapecounts:
+        import glob
+        allc = {}
+        for t_ in sorted(glob.glob(os.path.join(a.tpl, '*.vt'))):
+            n_ = os.path.splitext(os.path.basename(t_))[0]
+            try:
+                g_ = build_unit(t_, os.path.join(a.out, 'shape', n_.replace('-', '_') + '.rs'))
+                allc[n_] = g_['shape']
+            except Undecided as e_:
+                print('skip', n_, e_)
+        json.dump(allc, open(os.path.join(VXDIR, 'shapecounts.json'), 'w'), indent=0, sort_keys=True)
+        print('wrote', os.path.join(VXDIR, 'shapecounts.json'), len(allc), 'units')
+        sys.exit(0)
     if a.gen_only:
         g = build_unit(a.tpl, os.path.join(a.out, os.path.splitext(os.path.basename(a.tpl))[0].replace('-', '_') + '.rs'))
         print(g['path'])
